@@ -132,10 +132,18 @@ pub fn run(ctx: &Ctx) -> Report {
                 }
             }
             if ctx.tier_thorough && *probe == K::UpdateFrame {
+                // length 4: exhaustive on the small panels (<= 128 x 296 / 200 x 200), seeded elsewhere
+                let small = spec.w * spec.h <= 200 * 200;
                 let big = spec.w * spec.h > 300 * 400;
-                let n4 = if big { 2000 } else { 12000 };
-                for _ in 0..n4 {
-                    cases.push(Case { spec, h: random_history(spec, &syms, 4, &mut rng), probe: *probe });
+                if small {
+                    for h in histories(spec, &syms, 4) {
+                        cases.push(Case { spec, h, probe: *probe });
+                    }
+                } else {
+                    let n4 = if big { 2000 } else { 20000 };
+                    for _ in 0..n4 {
+                        cases.push(Case { spec, h: random_history(spec, &syms, 4, &mut rng), probe: *probe });
+                    }
                 }
             }
         }
